@@ -1453,3 +1453,145 @@ C.contract(
     serves=['C17'],
     note='proved against the CONTRACT of pretty_call_alt; attribute.default is NOTHING, a Factory (called with or without the instance) or the '
          'default value; the keyword is the alias (attrs >= 22.2) or the name without leading underscores')
+
+
+# ==== pretty_stdlib.py: the collections printers emit exactly the constructor call that rebuilds the value (C07) ================
+STD = 'prettyprinter.pretty_stdlib'
+
+
+@C.spec([('ctx', 'Ctx'), ('cls', 'Cls'), ('args', 'ArgList'), ('kwargs', 'KwList')], 'Doc', opaque=True)
+def call_alt_kw(ctx, cls, args, kwargs):
+    """pretty_call_alt(ctx, cls, args=args, kwargs=kwargs)"""
+    return None
+
+
+@C.spec([('v', 'Val')], 'OptVal', opaque=True)
+def maxlen_of(v):
+    return v.maxlen
+
+
+@C.spec([('v', 'Val')], 'Val', opaque=True)
+def default_factory_of(v):
+    return v.default_factory
+
+
+@C.spec([('v', 'Val')], 'Val', opaque=True)
+def dict_val(v):
+    """dict(v): a plain dict with the same pairs in the same order"""
+    return dict(v)
+
+
+@C.spec([('v', 'Val')], 'Val', opaque=True)
+def items_view(v):
+    return v.items()
+
+
+@C.spec([('v', 'Val')], 'Val', opaque=True)
+def most_common_of(v):
+    return v.most_common()
+
+
+@C.spec([('v', 'Val')], 'ArgList', opaque=True)
+def exc_args(v):
+    """exc.args as an argument sequence"""
+    return None
+
+
+U.attr_hooks[('Val', 'maxlen')] = lambda I, base: S(I, 'maxlen_of', base)
+U.attr_hooks[('Val', 'default_factory')] = lambda I, base: S(I, 'default_factory_of', base)
+U.attr_hooks[('Val', 'args')] = lambda I, base: ('opaque', 'excargs', base)
+U.method_hooks[('Val', 'items')] = lambda I, obj, args, kwargs, node: S(I, 'items_view', obj)
+U.method_hooks[('Val', 'most_common')] = lambda I, obj, args, kwargs, node: (S(I, 'most_common_of', obj) if not args and not kwargs
+                                                                             else (_ for _ in ()).throw(OutsideSubset('most_common(n)')))
+_call_cls_base = _call_cls
+
+
+def _call_cls2(I, fn, args, kwargs, node):
+    if fn.eq(CLS['dict']) and len(args) == 1 and not kwargs and is_z3(args[0]) and I.sort_of(args[0]) == 'Val':
+        return S(I, 'dict_val', args[0])
+    return _call_cls_base(I, fn, args, kwargs, node)
+
+
+U.call_hooks['Cls'] = _call_cls2
+
+
+def _h_call_alt_std(I, args, kwargs, node):
+    """pretty_call_alt(ctx, cls, args=<tuple of objects>, kwargs=<collected pairs>) in a stdlib printer: named by call_alt_kw"""
+    kw = dict(kwargs)
+    a = list(args)
+    if len(a) != 2 or set(kw) - {'args', 'kwargs'}:
+        raise OutsideSubset('pretty_call_alt call shape in a stdlib printer')
+    argv = kw.get('args', ())
+    if isinstance(argv, tuple) and len(argv) == 3 and argv[0] == 'opaque' and argv[1] == 'excargs':
+        al = S(I, 'exc_args', argv[2])
+    else:
+        al = _to_list(I, 'ArgList', argv, _to_arg)
+    ks = kw.get('kwargs', [])
+    if is_z3(ks) and I.sort_of(ks) == 'KwSnoc':
+        kl = S(I, 'app_kw', ks, U.nil('KwList'))
+    elif isinstance(ks, (list, tuple)) and not ks:
+        kl = U.nil('KwList')
+    else:
+        raise OutsideSubset('kwargs of a stdlib printer')
+    if 'kwargs' not in kw:
+        return S(I, 'call_alt', I.coerce(a[0], 'Ctx'), I.coerce(a[1], 'Cls'), al)
+    return S(I, 'call_alt_kw', I.coerce(a[0], 'Ctx'), I.coerce(a[1], 'Cls'), al, kl)
+
+
+C.extern[STD] = {'pretty_call_alt': FuncVal('hook', 'pretty_call_alt', _h_call_alt_std)}
+_SERV7 = ['C07']
+C.contract(STD, 'pretty_deque', params={'value': 'Val', 'ctx': 'Ctx'}, returns='Doc', locals_={'kwargs': 'KwSnoc'},
+           ensures=[('chosen-call:bounded-deque-keeps-its-maxlen',
+                     'implies(maxlen_of(value) is not None, result == call_alt_kw(ctx, cls_of(value), [AVal(list_val(items(value)))], '
+                     '[Kw("maxlen", unwrap(maxlen_of(value)))]))'),
+                    ('chosen-call:unbounded-deque-of-all-items',
+                     'implies(maxlen_of(value) is None, result == call_alt_kw(ctx, cls_of(value), [AVal(list_val(items(value)))], []))')],
+           serves=_SERV7)
+C.contract(STD, 'pretty_defaultdict', params={'d': 'Val', 'ctx': 'Ctx'}, returns='Doc',
+           ensures=[('chosen-call:factory-then-the-plain-dict', 'result == call_alt(ctx, cls_of(d), [AVal(default_factory_of(d)), AVal(dict_val(d))])')],
+           serves=_SERV7)
+C.contract(STD, 'pretty_ordereddict', params={'d': 'Val', 'ctx': 'Ctx'}, returns='Doc',
+           ensures=[('chosen-call:list-of-the-items-in-order', 'result == call_alt(ctx, cls_of(d), [AVal(list_val(items(items_view(d))))])')],
+           serves=_SERV7)
+C.contract(STD, 'pretty_counter', params={'counter': 'Val', 'ctx': 'Ctx'}, returns='Doc',
+           ensures=[('chosen-call:dict-of-the-counts', 'result == call_alt(ctx, cls_of(counter), [AVal(dict_val(most_common_of(counter)))])')],
+           serves=_SERV7)
+C.contract(STD, 'pretty_mappingproxy', params={'value': 'Val', 'ctx': 'Ctx'}, returns='Doc',
+           ensures=[('chosen-call:the-plain-dict', 'result == call_alt(ctx, cls_of(value), [AVal(dict_val(value))])')], serves=_SERV7)
+C.contract(STD, 'pretty_baseexception', params={'exc': 'Val', 'ctx': 'Ctx'}, returns='Doc',
+           ensures=[('chosen-call:the-exception-arguments', 'result == call_alt(ctx, cls_of(exc), exc_args(exc))')], serves=_SERV7)
+C.assume('clauses named chosen-call: pin the constructor call the printer chose; the property only asks for SOME call that rebuilds an equal object, '
+         'so a refuted chosen-call clause is a violation only with a failing input from the replay (real prints of deques, defaultdicts, '
+         'OrderedDicts, Counters, exceptions evaluated and compared); without one it is reported as undecided')
+C.assume('stdlib constructor protocols (the reason these calls rebuild an equal object; not checkable by a contract on the printer): '
+         'deque(list(d), maxlen=d.maxlen) == d; defaultdict(d.default_factory, dict(d)) == d; OrderedDict(list(d.items())) == d; '
+         'Counter(dict(c.most_common())) == c; type(e)(*e.args) rebuilds an exception with the same args')
+
+
+@C.spec([('v', 'Val')], 'Str', opaque=True)
+def str_text(v):
+    return str(v)
+
+
+_call_cls_base2 = _call_cls2
+
+
+def _call_cls3(I, fn, args, kwargs, node):
+    if fn.eq(CLS['str']) and len(args) == 1 and not kwargs and is_z3(args[0]) and I.sort_of(args[0]) == 'Val':
+        return S(I, 'str_text', args[0])
+    return _call_cls_base2(I, fn, args, kwargs, node)
+
+
+U.call_hooks['Cls'] = _call_cls3
+_to_arg_base3 = _to_arg
+
+
+def _to_arg3(I, a):
+    if is_z3(a) and I.sort_of(a) == 'Str':
+        return U.ctor('Arg', 'AStr')(a)
+    return _to_arg_base3(I, a)
+
+
+_to_arg = _to_arg3
+C.contract(STD, 'pretty_uuid', params={'value': 'Val', 'ctx': 'Ctx'}, returns='Doc',
+           ensures=[('chosen-call:the-canonical-text', 'result == call_alt(ctx, cls_of(value), [AStr(str_text(value))])')], serves=_SERV7)
